@@ -103,7 +103,7 @@ pub fn run_xml(i: &Input) -> Value {
         })
         .unwrap_or_else(|p| Err(format!("PANIC {p}")));
         match text {
-            Err(e) => outs.push(json!({"indent":indent,"serok":false,"sermsg":e,"text":[],"out":out_json(Err("not serialised".into()))})),
+            Err(e) => outs.push(json!({"indent":indent,"serok":false,"sermsg":e,"text":[],"out":out_json(Err("not serialised".into())),"lexok":true,"names":[],"chunks":[]})),
             Ok(t) => {
                 let out: Result<Vec<Value>, String> = guarded(|| {
                     let mut v = vec![];
@@ -111,10 +111,188 @@ pub fn run_xml(i: &Input) -> Value {
                     Ok(v)
                 })
                 .unwrap_or_else(|p| Err(format!("PANIC {p}")));
-                outs.push(json!({"indent":indent,"serok":true,"sermsg":"","text": if indent == 0 || indent == 4 { cps(&t) } else { json!([]) },"out":out_json(out)}));
+                let (lexok, names, chunks) = xml_lex(&t);
+                outs.push(json!({"indent":indent,"serok":true,"sermsg":"","text": if indent == 0 || indent == 4 { cps(&t) } else { json!([]) },"out":out_json(out),
+                    "lexok":lexok,"names":names,"chunks":chunks}));
             }
         }
     }
     ev["outs"] = json!(outs);
+    // sinks that fail: success may only be reported when the sink holds the complete document
+    let mut faults = vec![];
+    let full: Option<String> = guarded(|| {
+        let mut s = RdfXmlSerializer::new_stringifier();
+        s.serialize_triples(i.d.iter().map(|q| q.0.clone()).map(Ok::<_, std::convert::Infallible>)).ok()?;
+        Some(String::from_utf8_lossy(s.as_utf8()).to_string())
+    })
+    .unwrap_or(None);
+    if let Some(full) = full {
+        let n = full.len();
+        for (limit, buffered) in [(0usize, false), (n / 2, false), (n.saturating_sub(25), false), (n.saturating_sub(1), false), (n, false), (n / 2, true), (n.saturating_sub(1), true), (n, true)] {
+            let got = std::rc::Rc::new(std::cell::RefCell::new(Vec::<u8>::new()));
+            let sink = Limited { got: got.clone(), limit };
+            let ok: Result<bool, String> = guarded(|| {
+                if buffered {
+                    let mut s = RdfXmlSerializer::new(std::io::BufWriter::with_capacity(1 << 20, sink));
+                    let r = s.serialize_triples(i.d.iter().map(|q| q.0.clone()).map(Ok::<_, std::convert::Infallible>)).is_ok();
+                    r
+                } else {
+                    let mut s = RdfXmlSerializer::new(sink);
+                    s.serialize_triples(i.d.iter().map(|q| q.0.clone()).map(Ok::<_, std::convert::Infallible>)).is_ok()
+                }
+            });
+            let complete = got.borrow().as_slice() == full.as_bytes();
+            faults.push(json!({"limit":limit,"len":n,"buffered":buffered,"ok":ok.clone().unwrap_or(false),"panicked":ok.is_err(),"complete":complete}));
+        }
+    }
+    ev["faults"] = json!(faults);
     ev
+}
+
+/// a sink that accepts `limit` bytes and then fails
+struct Limited {
+    got: std::rc::Rc<std::cell::RefCell<Vec<u8>>>,
+    limit: usize,
+}
+impl std::io::Write for Limited {
+    fn write(&mut self, data: &[u8]) -> std::io::Result<usize> {
+        let mut g = self.got.borrow_mut();
+        let room = self.limit.saturating_sub(g.len());
+        if room == 0 && !data.is_empty() {
+            return Err(std::io::Error::new(std::io::ErrorKind::Other, "sink full"));
+        }
+        let k = room.min(data.len());
+        g.extend_from_slice(&data[..k]);
+        Ok(k)
+    }
+    fn flush(&mut self) -> std::io::Result<()> {
+        Ok(())
+    }
+}
+
+/// A plain XML tokenizer (no validation): the element and attribute names, and the raw character data / attribute values,
+/// of a document made of an optional XML declaration, start / end / empty tags with double- or single-quoted attributes, and text.
+/// Whether names are QNames and chunks are legal is judged by the specification (Trace_RoundTrip.tla), not here.
+/// lexok = false when the text does not even have that shape (unbalanced tags, stray '<', unterminated attribute...).
+pub fn xml_lex(t: &str) -> (bool, Vec<Value>, Vec<Value>) {
+    let c: Vec<char> = t.chars().collect();
+    let (mut names, mut chunks): (Vec<String>, Vec<String>) = (vec![], vec![]);
+    let mut stack: Vec<String> = vec![];
+    let mut i = 0usize;
+    let mut seen_root = false;
+    let fail = |names: &Vec<String>, chunks: &Vec<String>| (false, names.iter().map(|x| cps(x)).collect(), chunks.iter().map(|x| cps(x)).collect());
+    let is_ws = |ch: char| matches!(ch, ' ' | '\t' | '\n' | '\r');
+    while i < c.len() {
+        if c[i] == '<' {
+            if c[i..].starts_with(&['<', '?']) {
+                // declaration / processing instruction: skip to "?>"
+                match (i..c.len().saturating_sub(1)).find(|j| c[*j] == '?' && c[*j + 1] == '>') {
+                    Some(j) => i = j + 2,
+                    None => return fail(&names, &chunks),
+                }
+                continue;
+            }
+            let closing = i + 1 < c.len() && c[i + 1] == '/';
+            let mut j = if closing { i + 2 } else { i + 1 };
+            let st = j;
+            while j < c.len() && !is_ws(c[j]) && c[j] != '>' && c[j] != '/' {
+                j += 1;
+            }
+            let name: String = c[st..j].iter().collect();
+            names.push(name.clone());
+            if closing {
+                while j < c.len() && is_ws(c[j]) {
+                    j += 1;
+                }
+                if j >= c.len() || c[j] != '>' || stack.pop() != Some(name) {
+                    return fail(&names, &chunks);
+                }
+                i = j + 1;
+                continue;
+            }
+            if stack.is_empty() {
+                if seen_root {
+                    return fail(&names, &chunks);
+                }
+                seen_root = true;
+            }
+            // attributes
+            let mut attrs: Vec<String> = vec![];
+            loop {
+                let had_ws = j < c.len() && is_ws(c[j]);
+                while j < c.len() && is_ws(c[j]) {
+                    j += 1;
+                }
+                if j >= c.len() {
+                    return fail(&names, &chunks);
+                }
+                if c[j] == '>' {
+                    stack.push(name.clone());
+                    i = j + 1;
+                    break;
+                }
+                if c[j] == '/' {
+                    if j + 1 < c.len() && c[j + 1] == '>' {
+                        i = j + 2;
+                        break;
+                    }
+                    return fail(&names, &chunks);
+                }
+                if !had_ws {
+                    return fail(&names, &chunks);
+                }
+                let st = j;
+                while j < c.len() && !is_ws(c[j]) && c[j] != '=' && c[j] != '>' && c[j] != '/' {
+                    j += 1;
+                }
+                let an: String = c[st..j].iter().collect();
+                if attrs.contains(&an) {
+                    return fail(&names, &chunks);
+                }
+                attrs.push(an.clone());
+                names.push(an);
+                while j < c.len() && is_ws(c[j]) {
+                    j += 1;
+                }
+                if j >= c.len() || c[j] != '=' {
+                    return fail(&names, &chunks);
+                }
+                j += 1;
+                while j < c.len() && is_ws(c[j]) {
+                    j += 1;
+                }
+                if j >= c.len() || (c[j] != '"' && c[j] != '\'') {
+                    return fail(&names, &chunks);
+                }
+                let q = c[j];
+                let st = j + 1;
+                j = st;
+                while j < c.len() && c[j] != q {
+                    j += 1;
+                }
+                if j >= c.len() {
+                    return fail(&names, &chunks);
+                }
+                chunks.push(c[st..j].iter().collect());
+                j += 1;
+            }
+        } else {
+            let st = i;
+            while i < c.len() && c[i] != '<' {
+                i += 1;
+            }
+            let txt: String = c[st..i].iter().collect();
+            if stack.is_empty() {
+                if !txt.chars().all(is_ws) {
+                    return fail(&names, &chunks);
+                }
+            } else {
+                chunks.push(txt);
+            }
+        }
+    }
+    if !stack.is_empty() || !seen_root {
+        return fail(&names, &chunks);
+    }
+    (true, names.iter().map(|x| cps(x)).collect(), chunks.iter().map(|x| cps(x)).collect())
 }
